@@ -87,8 +87,13 @@ def uninstall():
         setattr(owner, name, orig)
 
 
-def live(cls):
-    return [o for o in gc.get_objects() if isinstance(o, cls)]
+def live(cls, fresh_only=False):
+    """live objects of a class; with fresh_only, those created since the previous call (everything older sits in the
+    collector's permanent generation after gc.freeze(), which get_objects() does not walk - the scan stays cheap)."""
+    out = [o for o in gc.get_objects() if isinstance(o, cls)]
+    if fresh_only:
+        gc.freeze()
+    return out
 
 
 # ---------------------------------------------------------------------------------------------------------------------
@@ -96,6 +101,7 @@ def install(pid, rec):
     """returns a function to call at the end of every test item (or None)"""
     global REC
     REC = rec
+    gc.collect(); gc.freeze()
     import thermosteam as tmo
     from vt import common
     from vt.common import ledger, phase_ledger, ledger_add, ledger_diff, sparse_invariant
@@ -448,7 +454,7 @@ def install(pid, rec):
 
         def scan():
             # every live sparse container at the end of the test
-            for o in live((sp.SparseVector, sp.SparseArray, sp.SparseLogicalVector)):
+            for o in live((sp.SparseVector, sp.SparseArray, sp.SparseLogicalVector), True):
                 try:
                     e = sparse_invariant(o)
                 except Exception:
@@ -470,7 +476,7 @@ def install(pid, rec):
 
         def scan():
             q = Quiet()
-            for s in live(streams):
+            for s in live(streams, True):
                 try:
                     if s.isempty() or not (s.T == s.T and s.T > 0 and s.P > 0): continue
                     if (np.asarray(s.imol.data.to_array()) < 0).any(): continue
@@ -531,7 +537,7 @@ def install(pid, rec):
         PROPS = ('H', 'S', 'C', 'F_vol', 'rho', 'mu', 'kappa', 'Cn', 'Hvap')
 
         def scan():
-            for s in live(streams):
+            for s in live(streams, True):
                 try:
                     if s.isempty() or not (s.T == s.T and 200 < s.T < 2000 and s.P > 0): continue
                     if (np.asarray(s.imol.data.to_array()) < 0).any(): continue
@@ -581,7 +587,7 @@ def install(pid, rec):
             pass
 
         def scan():
-            units = [u for u in live(AbstractUnit) if hasattr(u, '_ins') and hasattr(u, '_outs')]
+            units = [u for u in live(AbstractUnit, True) if hasattr(u, '_ins') and hasattr(u, '_outs')]
             if not units: return
             U = U_(); U.units = units; U.streams = []
             for u in units:
@@ -602,7 +608,7 @@ def install(pid, rec):
         def nu_pre(cls_or_units, *a, **k):
             return True
 
-        def nu_post(tok, out, units, *a, **k):
+        def nu_post(tok, out, cls_, units, *a, **k):
             if k.get('ends') or (len(a) >= 1 and a[0]): return
             units = list(units)
             path = c19.flatten(out)
